@@ -76,6 +76,16 @@ def gen_cases(tier, seed):
                 deep.update(enlarge_per_dim=1.1, n_points_min=None)
             for r in range(4):
                 cases.append(dict(base, cfg=deep, kind='every_k', residue=r, R=4, deep=True, i=len(cases)))
+        if j % 4 == 1:
+            # sampler pool and > 10 000 points per shell: the pool path refills the proposal caches after the cut; whatever
+            # it needs for that must come out of the checkpoint
+            ppool = workloads.gen_problem(rng, family='gauss', d=2, prior='func', blobs='float', vectorized=True)
+            cpool = workloads.gen_cfg(rng, ppool, pool='s2', n_batch=500, networks=0, filepath=True)
+            cpool.update(n_live=200, f_live=0.3, n_shell=12000, n_eff=100, n_update=None, n_like_new_bound=None,
+                         periodic=None, discard_exploration=False)
+            for r in range(4):
+                cases.append(dict(base, prob=ppool, cfg=cpool, kind='every_k', residue=r, R=4, deep=True, stride=3,
+                                  i=len(cases)))
         cases.append(dict(base, kind='multi', i=len(cases)))
         cases.append(dict(base, kind='toggle', i=len(cases)))
     return cases
@@ -137,7 +147,7 @@ def _resume_in_child(spec, cap, path, scratch):
 def run_case(spec):
     cfg = spec['cfg']
     nb = cfg['n_batch']
-    cap = 60 * nb + 40 * cfg['n_live'] + (1500 if cfg['n_update'] == 1 else 0) + (40000 if spec.get('deep') else 0)
+    cap = 60 * nb + 40 * cfg['n_live'] + (1500 if cfg['n_update'] == 1 else 0) + (40000 if spec.get('deep') else 0) + (150000 if spec.get('stride') else 0)
     RR = spec.get('R', R)
     obs = dict(started_over_stale_file=0, resumes_compared=0, sliced_runs_compared=0, batches_in_reference_max=0, fresh_process_resumes=0,
                phase={'exploration': 0, 'bound_insertion_next': 0, 'end_of_exploration': 0, 'sampling': 0},
@@ -192,7 +202,8 @@ def run_case(spec):
                         k += 1
                         done = s.run(**_kw(cfg, n_like_max=k * nb))
                         obs['stops'] += 1
-                        thin = cfg['n_update'] == 1 and not s.explored and (k // RR) % 4 != 0
+                        thin = (cfg['n_update'] == 1 and not s.explored and (k // RR) % 4 != 0) or \
+                            (spec.get('stride') and (k // RR) % spec['stride'] != 0)
                         if k % RR == spec['residue'] and not done and not thin:
                             cp = os.path.join(scratch, 'copy-%d.hdf5' % k)
                             shutil.copyfile(path, cp)
